@@ -1050,7 +1050,7 @@ class Key(object):
         self.key_format = None
         self.is_private = None
 
-        if not import_key:
+        if not import_key and not (isinstance(import_key, numbers.Number) and not isinstance(import_key, bool)):
             import_key = random.SystemRandom().randint(1, secp256k1_n - 1)
             self.key_format = 'decimal'
             networks_extracted = network
@@ -1121,6 +1121,19 @@ class Key(object):
             if self._public_uncompressed_hex:
                 self._public_uncompressed_byte = bytes.fromhex(self._public_uncompressed_hex)
             self.public_byte = self.public_compressed_byte if self.compressed else self.public_uncompressed_byte
+            if strict:
+                # A public key must be a point on the secp256k1 curve
+                x = int(self.x_hex, 16)
+                y2 = (pow(x, 3, secp256k1_p) + secp256k1_b) % secp256k1_p
+                if x >= secp256k1_p:
+                    raise BKeyError("Invalid public key, x coordinate is not a field element")
+                if self.key_format != 'point' and pub_key[:2] not in (['04'] if len(pub_key) == 130 else ['02', '03']):
+                    raise BKeyError("Invalid public key, unknown prefix %s" % pub_key[:2])
+                if self._y is not None:
+                    if self._y >= secp256k1_p or pow(self._y, 2, secp256k1_p) != y2:
+                        raise BKeyError("Invalid public key, point is not on the secp256k1 curve")
+                elif pow(pow(y2, (secp256k1_p + 1) // 4, secp256k1_p), 2, secp256k1_p) != y2:
+                    raise BKeyError("Invalid public key, x coordinate is not on the secp256k1 curve")
 
         elif self.is_private and self.key_format == 'decimal':
             self.secret = int(import_key)
@@ -1181,6 +1194,9 @@ class Key(object):
         else:
             raise BKeyError("Cannot import key. Public key format unknown")
 
+        if self.is_private and self.secret is not None and len(self.private_byte) <= 32 and \
+                not 0 < self.secret < secp256k1_n:
+            raise BKeyError("Private key must be a positive integer smaller than the secp256k1 curve order")
         if self.is_private and not (self.public_byte or self.public_hex):
             if not self.is_private:
                 raise BKeyError("Private key has no known secret number")
